@@ -264,8 +264,8 @@ def harness_summary(h):
         "library_panics_excused": len(h.allowed_panics),
         "cover_witnesses": f"{sum(1 for c in h.covers if (c.get('status') or '').upper()=='SATISFIED')}/{len(h.covers)}",
         "vccs": st.get("vccs_generated"),
-        "solver_s": round(st.get("runtime_solver_s", 0) + st.get("runtime_decision_procedure_s", 0), 3),
-        "symex_s": round(st.get("runtime_symex_s", 0), 3),
+        "solver_s": round((st.get("runtime_solver_s") or 0) + (st.get("runtime_decision_procedure_s") or 0), 3),
+        "symex_s": round(st.get("runtime_symex_s") or 0, 3),
         "wall_ms": h.duration_ms,
         "triomphe_functions_with_checks": len(triomphe_functions(h)),
         "reasons": h.reasons[:4],
